@@ -90,11 +90,11 @@ func (a1 jsonMultiset) diff(n JsonNode, path path, metadata []Metadata, strategy
 		a1Map[hc] = v
 	}
 	a2Counts := make(map[[8]byte]int)
-	a2Map := make(map[[8]byte]JsonNode)
+	a2Nodes := make(map[[8]byte][]JsonNode)
 	for _, v := range a2 {
 		hc := v.hashCode(metadata)
 		a2Counts[hc]++
-		a2Map[hc] = v
+		a2Nodes[hc] = append(a2Nodes[hc], v)
 	}
 	// TODO: cast directly to jsonObject when jsonObject drops idKeys.
 	o, _ := NewJsonNode(map[string]interface{}{})
@@ -135,8 +135,10 @@ func (a1 jsonMultiset) diff(n JsonNode, path path, metadata []Metadata, strategy
 		}
 		added := a2Count - a1Count
 		if added > 0 {
+			// One node of b per added copy: copies that share a
+			// node would share storage in the patched document.
 			for i := 0; i < added; i++ {
-				e.NewValues = append(e.NewValues, a2Map[hc])
+				e.NewValues = append(e.NewValues, a2Nodes[hc][i])
 			}
 		}
 	}
